@@ -41,10 +41,12 @@ pub fn __cow_eq_slice(a: Vec<u8>, b: &[u8]) -> (r: bool) ensures r == (a@ == b@)
 pub struct ByteRegex { _p: () }
 pub type Regex = ByteRegex;
 pub uninterp spec fn regex_lang(pattern: Seq<char>, candidate: Seq<u8>) -> bool;
+/// the text is a regular expression (the regex crate compiles it)
+pub uninterp spec fn regex_valid(pattern: Seq<char>) -> bool;
 impl ByteRegex {
     pub uninterp spec fn pattern(&self) -> Seq<char>;
     #[verifier::external_body]
-    pub fn new(p: &str) -> (r: anyhow::Result<ByteRegex>) ensures r is Ok ==> r->Ok_0.pattern() == p@ { unimplemented!() }
+    pub fn new(p: &str) -> (r: anyhow::Result<ByteRegex>) ensures (r is Ok) == regex_valid(p@), r is Ok ==> r->Ok_0.pattern() == p@ { unimplemented!() }
     #[verifier::external_body]
     pub fn is_match(&self, haystack: &[u8]) -> (r: bool) ensures r == regex_lang(self.pattern(), haystack@) { unimplemented!() }
 }
